@@ -16,7 +16,7 @@
 EXTENDS ServiceAPIDefs, Json, IOUtils
 
 TraceLog == ndJsonDeserialize(IOEnv.VERIF_TRACE)
-Collect == IOEnv.VERIF_COLLECT = "1"
+Collect == "VERIF_COLLECT" \in DOMAIN IOEnv /\ IOEnv.VERIF_COLLECT = "1"
 
 VARIABLES l
 mvars == <<l>>
